@@ -512,5 +512,12 @@ def build(ctx):
                   rewrites=[dict(rule='X10', pattern='self.active_peers', repl='active_peers', optional=True), dict(rule='X10', pattern='self.connection', repl='connection', optional=True),
                             dict(rule='X5', pattern='crate::types::DisconnectReason', repl='DisconnectReason', optional=True)])
     t += C.helpers_here()
-    t += HARNESS
+    h = HARNESS
+    if getattr(C, 'tier', 'quick') == 'thorough':
+        # the thorough tier explores one step deeper (histories of 5 set operations, 5 connectivity checks)
+        for a, b in (('while step < 4 {', 'while step < 5 {'), ('every history of 4 operations', 'every history of 5 operations'),
+                     ('naddr, false, 4);', 'naddr, false, 5);'), ('every run of 4 connectivity checks', 'every run of 5 connectivity checks')):
+            assert h.count(a) == 1, a
+            h = h.replace(a, b)
+    t += h
     return t
